@@ -109,7 +109,7 @@ class Twin:                   # built by Ent.twin() while a condition is evaluat
     a: int = 1
 
 
-CONSTRUCTED = {"Made": 0, "Pair": 0}   # construction counters (real instances only: __post_init__ ran)
+CONSTRUCTED = {"Made": 0, "Pair": 0, "MadeKw": 0}   # construction counters (real instances only: __post_init__ ran)
 
 
 @symbol
@@ -124,6 +124,13 @@ class Made:                   # target of rule inference: built from one binding
 
     def __repr__(self):
         return f"Made({self.src!r}, {self.val!r}, {self.extra!r})"
+
+
+@symbol
+@dataclass(eq=False, repr=False)
+class MadeKw(Made, KwMixin):  # dataclasses.fields() lists the keyword-only w FIRST, __init__ takes src, val, extra positionally
+    def __post_init__(self):
+        CONSTRUCTED["MadeKw"] += 1
 
 
 @symbol
@@ -167,7 +174,7 @@ class Foreign:                # unrelated undecorated class
 
 
 CLASSES = {"Ent": Ent, "EntKw": EntKw, "EntSub": EntSub, "EntSubSub": EntSubSub, "EntPlain": EntPlain, "EntV": EntV, "Other": Other, "Foreign": Foreign, "Made": Made,
-           "Pair": Pair}
+           "Pair": Pair, "MadeKw": MadeKw}
 
 
 TYPES = {**CLASSES, "int": int, "tuple": tuple}      # what HasType may test for (values as well as entities)
